@@ -2062,6 +2062,34 @@ def _c18_capture_handler_harnesses(prop, tier):
     return out
 
 
+def _c18_operator_callback_harnesses(prop):
+    """C18 (native only): the panicking expression is the CALLBACK of each operator that takes one (incl. the iterator
+    operators `?@`, `?|>@`, `?>`, `?|>`, `^@`, `?^@`, `?&!>` on a non-empty iterator): it reaches the caller of the sync and
+    thread-spawning kinds - an operator that silently never calls its callback swallows the panic"""
+    out = []
+    B = "|_| -> %s { panic!(\"INJECTED\") }"
+    IT = "vec![1u8, 2, 3].into_iter()"
+    chains = [
+        ("map", "Some(1u8) |> " + B % "u8"), ("and_then", "Some(1u8) => " + B % "Option<u8>"), ("filter", "Some(1u8) ?> " + B % "bool"),
+        ("then", "Some(1u8) -> " + B % "Option<u8>"), ("inspect", "Some(1u8) ?? " + B % "()"), ("or_else", "None::<u8> <= || -> Option<u8> { panic!(\"INJECTED\") }"),
+        ("map_err", "Err::<u8, u8>(1) !> " + B % "u8"),
+        ("find", IT + " ?@ " + B % "bool"), ("find_map", IT + " ?|>@ " + B % "Option<u8>"),
+        ("iter_filter_collect", IT + " ?> " + B % "bool" + " =>[] Vec<u8>"), ("iter_filter_map_collect", IT + " ?|> " + B % "Option<u8>" + " =>[] Vec<u8>"),
+        ("iter_map_collect", IT + " |> " + B % "u8" + " =>[] Vec<u8>"),
+        ("fold", IT + " ^@ 0u8, |_, _| -> u8 { panic!(\"INJECTED\") }"), ("try_fold", IT + " ?^@ 0u8, |_, _| -> Option<u8> { panic!(\"INJECTED\") }"),
+        ("partition", IT + " ?&!> " + B % "bool" + " -> |p: (Vec<u8>, Vec<u8>)| p.0.len()"),
+    ]
+    for mac in ("join", "join_spawn"):
+        for (name, chain) in chains:
+            prog = "%s! { %s, Some(2u8) |> |x: u8| x }" % (mac, chain)
+            b = "    let res = with_watchdog(move || std::panic::catch_unwind(std::panic::AssertUnwindSafe(|| { let _ = %s; })).is_err());\n" % prog
+            b += "    assert!(res.is_some(), \"C18: the caller was left blocked after a panic\");\n"
+            b += "    assert!(res == Some(true), \"C18: the panic of an operator's callback did not reach the caller (callback never invoked?)\");\n"
+            hn = "%s_panic_callback_%s_%s" % (prop.lower(), mac, name)
+            out.append(Harness(hn, harness_fn(hn, b), prog, note="panic in the callback of `%s`" % name))
+    return out
+
+
 def _c18_deferred_err_op_harnesses(prop):
     """C18 (native only): the later step of the other branch starts with a deferred ERROR operator (`~<=`, `~!>`, `~<|`) on a
     failed value: it belongs to step 1 and must not run when step 0 panicked"""
@@ -2527,6 +2555,7 @@ def native_families(pid, tier):
         out += _c18_blocked_sibling_harnesses(pid, tier)
         out += _c18_capture_handler_harnesses(pid, tier)
         out += _c18_deferred_err_op_harnesses(pid)
+        out += _c18_operator_callback_harnesses(pid)
     if pid == "C08":
         out += _c08_harnesses(pid, tier)
         out += _c08_nested_harnesses(pid)
